@@ -156,6 +156,55 @@ fn newton_poly_linear<S: Sc>(start: Start) {
     }
 }
 
+
+/// genuinely non-linear members: f(x) = (x-r)(1 + c(x-r)) in one dimension, concrete curvature c and root r (seeded:
+/// at the origin, of order one, far from the origin), start r + delta with |c delta| <= 0.1 (inside the
+/// quadratic-convergence region) and tolerance symbolic.  The iterates are rational functions of delta; the solver
+/// decides the stopping tests and the accuracy of the returned point.  method: 0 newton, 1 secant, 2 newton_polynomial
+fn quadratic_1d<S: Sc>(method: u8, c: f64, root: f64, cap: usize) {
+    let cc = S::lit(c);
+    let r = S::lit(root);
+    S::no_div_zero_forks();
+    let d = S::input("delta", -0.2, 0.2);
+    let tol = S::input("tol", 1e-10, 1e-3);
+    let x0 = r + d;
+    let one = S::lit(1.0);
+    let f = move |x: &[S]| {
+        let e = x[0] - r;
+        SVector::<S, 1>::new(e * (one + cc * e))
+    };
+    let res: Result<S, String> = match method {
+        0 => newton::<S, _, _, 1>(&[x0], f, move |x: &[S]| SMatrix::<S, 1, 1>::new(one + S::lit(2.0) * cc * (x[0] - r)), tol, 10).map(|v| v[0]),
+        // (Broyden's inverse-Jacobian update nests quickly: two loop iterations are encoded in the quick tier, three in the thorough tier, the iteration cap is
+        //  then an accepted outcome)
+        1 => secant::<S, _, 1>(&[x0], f, S::lit(0.0078125), tol, if cap > 0 { cap } else { 4 }).map(|v| v[0]),
+        _ => {
+            // (x-r)(1 + c(x-r)) = c x^2 + (1 - 2 c r) x + (c r^2 - r)
+            let p = Polynomial::from_slice(&[cc, one - S::lit(2.0) * cc * r, cc * r * r - r]);
+            newton_polynomial(x0, &p, tol, 10)
+        }
+    };
+    S::reach("quadratic-1d");
+    let name = ["newton", "secant", "newton_polynomial"][method as usize];
+    match res {
+        Ok(x) => {
+            // "a small multiple of the tolerance": absolute for roots of moderate size, relative to |r| beyond 1
+            // (Newton's documented test is relative to the iterate, the secant method's is absolute)
+            let unit = if method != 1 { tol * r.sabs().smax(one) } else { tol };
+            S::prove_m(
+                &format!("{}/quadratic-returned-point-within-small-multiple-of-tolerance", name),
+                S::b_le((x - r).sabs(), unit * S::lit(4.0) + S::lit(1e-9)),
+                S::b_gt((x - r).sabs(), unit * S::lit(50.0) + S::lit(1e-6)),
+            );
+        }
+        Err(e) => {
+            if !(method == 1 && e.contains("Maximum iterations")) {
+                S::prove(&format!("{}/start-in-convergence-region-gives-ok", name), S::b_const(false))
+            }
+        }
+    }
+}
+
 fn newton1<S: Sc>(seed: i64, st: Start) {
     newton_affine::<S, 1>(seed, st)
 }
@@ -183,8 +232,8 @@ fn singular2<S: Sc>(seed: i64) {
 
 pub fn run(pr: &mut PropRun, t: &Tier) {
     pr.funcs(&["roots::newton", "roots::secant", "roots::jac_finite_diff", "roots::steffensen", "roots::newton_polynomial", "nalgebra LU solve / try_inverse as used by them"]);
-    pr.bound("finitely-exact sub-class: affine systems A(x-r) with seeded concrete well-conditioned A (dimension 1..3), root r, start, tolerance and finite-difference width symbolic (starts: arbitrary, the origin, exactly on the root); affine contractions a*x+b with |a|<=0.9 symbolic for Steffensen (tolerance down to 1e-13); degree-1 polynomials with symbolic coefficients for newton_polynomial; singular A gives Err");
-    pr.outside("the non-linear part of the property (smooth non-linearities, basins of attraction, polynomials of degree >= 2) and muller_polynomial: their iterates are nested rational / complex-square-root functions of the inputs with no finite-step exactness for a solver to decide");
+    pr.bound("finitely-exact sub-class: affine systems A(x-r) with seeded concrete well-conditioned A (dimension 1..3), root r, start, tolerance and finite-difference width symbolic (starts: arbitrary, the origin, exactly on the root); affine contractions a*x+b with |a|<=0.9 symbolic for Steffensen (tolerance down to 1e-13); degree-1 polynomials with symbolic coefficients for newton_polynomial; singular A gives Err; genuinely non-linear members in one dimension: f(x) = (x-r)(1+c(x-r)) with seeded concrete curvature and root (at the origin, of order one, 1000, -65536), start r+delta (|delta| <= 0.2) and tolerance symbolic, for newton, newton_polynomial (all iterations) and secant (2 loop iterations quick, 3 thorough; the iteration cap is then an accepted outcome): returned point within 4 x tolerance (relative to max(1,|r|) for the Newton variants, whose test is relative)");
+    pr.outside("non-linear systems of dimension >= 2, non-polynomial non-linearities, basins of attraction, polynomials of degree >= 3 and muller_polynomial: their iterates are nested rational / complex-square-root functions of the inputs with no finite-step exactness for a solver to decide");
     for start in [Start::Symbolic, Start::Origin, Start::OnRoot] {
         let mut cfg = t.cfg(&format!("C08:newton(S=1,{:?})", start));
         cfg.max_decisions = 200;
@@ -215,6 +264,17 @@ pub fn run(pr: &mut PropRun, t: &Tier) {
             run_h!(pr, cfg, secant3, t.seed, start);
         }
     }
+    let mut jobs: Vec<super::Job> = vec![];
+    for (mi, m) in ["newton", "secant", "newton_polynomial"].iter().enumerate() {
+        for (c, root) in [(0.5, 0.0), (-0.375, 0.8125), (0.5, -0.06597518920898438), (-0.375, 1000.0), (0.5, -65536.0)] {
+            let mut cfg = t.cfg(&format!("C08:quadratic-1d({},c={},root={})", m, c, root));
+            cfg.max_decisions = 200;
+            cfg.query_timeout_s = if t.thorough { 120.0 } else { 20.0 };
+            let (mi8, cap) = (mi as u8, if t.thorough { 5usize } else { 4usize });
+            crate::job!(jobs, cfg, quadratic_1d, mi8, c, root, cap);
+        }
+    }
+    super::run_jobs(pr, jobs, t.threads);
     run_h!(pr, t.cfg("C08:singular(S=1)"), singular1, t.seed);
     run_h!(pr, t.cfg("C08:singular(S=2)"), singular2, t.seed);
     for on in [false, true] {
